@@ -175,6 +175,11 @@ def work(item, tier, seed):
 
 
 def check_state(st, bd, out):
+    if any(str(h).startswith('lorder') for h in st.hist) and 'to_meshtet()' in st.hist:
+        # to_meshtet() of a hexahedral mesh with a rotated local order is non-conforming (known finding of C18):
+        # such a mesh is not a legal pre-state of the refinement relation
+        out.count('pre_states_skipped_nonconforming_to_meshtet(C18 finding)')
+        return
     kind = st.kind
     dim = REF[kind]['dim']
     for k in bd['k']:
